@@ -9,7 +9,11 @@ use crate::zobrist::ZobristHasher;
 use log::{error, info};
 use std::io::{self, BufRead};
 use std::process;
+#[cfg(walleye_verif)]
+use crate::verif_seam::{mpsc, thread};
+#[cfg(not(walleye_verif))]
 use std::sync::mpsc;
+#[cfg(not(walleye_verif))]
 use std::thread;
 #[cfg(walleye_verif)]
 use crate::verif_seam::time::{Duration, Instant};
